@@ -28,6 +28,10 @@ Lead(x, k) == IF Len(x.ds) <= k THEN x ELSE Dec(x.sg, SubSeq(x.ds, 1, k), x.e + 
 \* result's exact expansion within half a unit in the last place (1.2 * 10^-16 relative) of the real result
 Tol(E) == Dec(1, BigMul(E.ds, <<1, 2>>), E.e - 17)
 Near(o, E) == IF DecIsZero(E) THEN DecIsZero(o) ELSE DecSign(o) = DecSign(E) /\ AbsWithin(o, E, Tol(E))
+\* correct rounding, exactly: the recorded double (exact expansion r.xe, neighbouring doubles r.lo < r.xe < r.hi) is a double
+\* nearest to the real number E - no other double lies closer (a tie leaves both neighbours)
+DistLe(a, b, E) == LET da == DecSub(a, E)  db == DecSub(b, E) IN ~DecAbsLt(db, da)        \* |a - E| <= |b - E|
+Nearest(r, E) == IF "lo" \in DOMAIN r /\ "hi" \in DOMAIN r THEN DistLe(r.xe, r.lo, E) /\ DistLe(r.xe, r.hi, E) ELSE Near(r.xe, E)
 OpVerdict(s) ==
     LET o == s.out IN
     IF ~Has(s, "xe") /\ s.op # "&" THEN "inc:operand with a long binary expansion"
@@ -50,7 +54,11 @@ OpVerdict(s) ==
                 ELSE IF ~DecIsZero(E) /\ Mag(E) < 0 - 306 THEN "inc:result in the subnormal range"
                 ELSE IF o.o = "err" THEN (IF Mag(E) = 309 THEN "inc:result at the edge of the double range" ELSE "no;num-op-failed")
                 ELSE IF ~hasNum THEN "inc:result with a long binary expansion"
-                ELSE IF Near(o.xe, E) THEN "ok" ELSE "no;num-op-wrong-result"
+                \* (E was computed from forty leading digits of each operand: first the coarse test, then correct rounding on the exact operands)
+                ELSE IF ~Near(o.xe, E) THEN "no;num-op-wrong-result"
+                ELSE IF Len(s.xe.ds) + Len(s.ye.ds) <= 120 /\ (s.op = "*" \/ span <= 60)
+                     THEN (IF Nearest(o, IF s.op = "+" THEN DecAdd(s.xe, s.ye) ELSE IF s.op = "-" THEN DecSub(s.xe, s.ye) ELSE DecMul(s.xe, s.ye)) THEN "ok" ELSE "no;num-op-not-correctly-rounded")
+                ELSE "ok"
            [] s.op = "/" ->
                 IF DecIsZero(Y) THEN (IF o.o = "err" THEN "ok" ELSE "no;num-op-division-by-zero-not-reported")
                 ELSE IF DecIsZero(X) THEN (IF hasNum /\ DecIsZero(o.xe) THEN "ok" ELSE "no;num-op-wrong-result")
@@ -58,7 +66,12 @@ OpVerdict(s) ==
                 ELSE IF Mag(X) - Mag(Y) >= 308 \/ Mag(X) - Mag(Y) < 0 - 305 THEN "inc:result at the edge of the double range"
                 ELSE IF o.o = "err" THEN "no;num-op-failed"
                 ELSE IF ~hasNum THEN "inc:result with a long binary expansion"
-                ELSE IF DecSign(o.xe) = DecSign(X) * DecSign(Y) /\ AbsWithin(DecMul(o.xe, Y), X, Tol(X)) THEN "ok" ELSE "no;num-op-wrong-result"
+                ELSE IF ~(DecSign(o.xe) = DecSign(X) * DecSign(Y) /\ AbsWithin(DecMul(o.xe, Y), X, Tol(X))) THEN "no;num-op-wrong-result"
+                \* correct rounding of the quotient q: |q*y - x| is not larger than for either neighbouring double
+                ELSE IF Has(o, "lo") /\ Has(o, "hi") /\ Len(s.xe.ds) + Len(s.ye.ds) <= 120 /\ span <= 60
+                     THEN (LET R(q) == DecSub(DecMul(q, s.ye), s.xe) IN
+                           IF ~DecAbsLt(R(o.lo), R(o.xe)) /\ ~DecAbsLt(R(o.hi), R(o.xe)) THEN "ok" ELSE "no;num-op-not-correctly-rounded")
+                ELSE "ok"
            [] s.op = "%" ->
                 IF DecIsZero(Y) THEN (IF o.o = "err" THEN "ok" ELSE "no;num-op-division-by-zero-not-reported")
                 ELSE IF span > 60 THEN "inc:remainder of operands very far apart"
@@ -75,6 +88,20 @@ OpVerdict(s) ==
                 ELSE LET T(x) == IF DecNorm(x).sg = 0 THEN {<<48>>, <<45, 48>>} ELSE {DecText(x)} IN
                      IF \E a \in T(s.x), b \in T(s.y) : o.s = a \o b THEN "ok" ELSE "no;num-op-wrong-string-form"
            [] OTHER -> "inc:operator outside TraceNum"
+
+\* C11 (J2): a JSON number as a program denotes the double nearest to the decimal it spells
+LiteralVerdict(s) ==
+    LET o == s.out
+        P == ParseNumeral(s.s)
+    IN  IF ~P.ok \/ P.neg \/ (Len(P.ip) > 1 /\ P.ip[1] = 48) THEN "inc:not a JSON number without sign"
+        ELSE IF Len(StripLeadingZeros(P.ex)) > 2 \/ NumeralTooBig(P) THEN "inc:numeral near the double range"
+        ELSE IF o.o # "val" \/ ~Has(o, "x") THEN "no;json-number-literal-rejected"
+        ELSE LET e0 == IF P.ex = <<>> THEN 0 ELSE DigitsVal(P.ex, 0)
+                 D == NumeralDec(FALSE, P.ip, P.fp, IF P.eneg THEN 0 - e0 ELSE e0)
+             IN  IF DecNorm(D).sg = 0 THEN (IF DecNorm(o.x).sg = 0 THEN "ok" ELSE "no;json-number-literal-value")
+                 ELSE IF Mag(D) < 0 - 300 \/ Mag(D) > 300 THEN "inc:numeral near the double range"
+                 ELSE IF ~Has(o, "xe") THEN (IF D.sg = o.x.sg /\ AbsWithin(o.x, D, Slack(D)) THEN "ok" ELSE "no;json-number-literal-value")
+                 ELSE IF Nearest(o, D) THEN "ok" ELSE "no;json-number-literal-value"
 
 StepVerdict(s) ==
     LET o == s.out IN
@@ -105,6 +132,7 @@ StepVerdict(s) ==
            [] s.fn = "numrt" ->
               IF o.o # "val" \/ ~Has(o, "x") THEN "no;num-round-trip-failed"
               ELSE IF DecEq(o.x, s.x) \/ (DecNorm(s.x).sg = 0 /\ DecNorm(o.x).sg = 0) THEN "ok" ELSE "no;num-round-trip"
+           [] s.fn = "literal" -> LiteralVerdict(s)
            [] s.fn = "number" ->
               LET P == ParseNumeral(s.s) IN
               IF ~P.ok THEN (IF o.o = "err" THEN "ok" ELSE "no;num-non-numeral-accepted")
@@ -115,6 +143,7 @@ StepVerdict(s) ==
                        D == NumeralDec(P.neg, P.ip, P.fp, IF P.eneg THEN 0 - e0 ELSE e0)
                    IN  IF DecNorm(D).sg = 0 THEN (IF DecNorm(o.x).sg = 0 THEN "ok" ELSE "no;num-numeral-value")
                        ELSE IF SigDigits(D) <= 15 THEN (IF DecEq(o.x, D) THEN "ok" ELSE "no;num-numeral-value")
+                       ELSE IF Has(o, "xe") /\ Mag(D) > 0 - 300 /\ Mag(D) < 300 THEN (IF DecSign(o.xe) = DecSign(D) /\ Nearest(o, D) THEN "ok" ELSE "no;num-numeral-value")
                        ELSE IF D.sg = o.x.sg /\ AbsWithin(o.x, D, Slack(D)) THEN "ok" ELSE "no;num-numeral-value"
            [] s.fn = "op" -> OpVerdict(s)
            [] OTHER -> "no;num-" \o o.o
